@@ -27,7 +27,7 @@ def gen_matcher_cases(ctx, sigma, maxlen, families, rich, workers=4, timeout=300
 
 def run_matcher(ctx, names, cases, tag):
     """the real matcher on every (filter, name)"""
-    recs = [dict(names=names)] + [dict(id=i, f=c["f"]) for i, c in enumerate(cases)]
+    recs = [dict(names=names)] + [dict(id=i, f=c["f"], **({"tmpl": c["tmpl"]} if "tmpl" in c else {})) for i, c in enumerate(cases)]
     cf = ctx.write_ndjson("mt_cases_%s.ndjson" % tag, recs)
     rf = os.path.join(ctx.out, "mt_results_%s.ndjson" % tag)
     ctx.go_test("mt", run="^TestMatcher$", env=dict(VERIF_MT_CASES=cf, VERIF_MT_RESULTS=rf), timeout=3000)
